@@ -51,8 +51,20 @@ def tree_cases(draw, tier):
                          "dt": draw(st.sampled_from([0.05, 0.2])), "normalize": draw(st.booleans())})
         elif k == 10:
             prog.append(draw(T.trunc_instr()))
-        else:
+        elif draw(st.booleans()):
             prog.append(draw(T.twin_instr()))
+        else:
+            # aliasing probe: make the operand complex (or not), derive with an operation that could return its input or share
+            # its buffers (copy / to_complex of an already complex state / scale by exactly one / add), mutate one side at once
+            a = draw(st.integers(0, 20))
+            if draw(st.booleans()):
+                prog.append({"op": "to_complex", "a": a, "inplace": True})
+            prog.append(draw(st.sampled_from([{"op": "to_complex", "a": a, "inplace": False}, {"op": "copy", "a": a},
+                                              {"op": "scale", "a": a, "val": [1.0, 0.0], "inplace": False},
+                                              {"op": "scale", "a": a, "val": [-1.0, 0.0], "inplace": False}])))
+            prog.append({"op": "tmutate", "a": draw(st.sampled_from([-1, a])),
+                         "what": draw(st.sampled_from(["tensor_inplace", "scale_inplace", "normalize", "canonicalise", "coeff"])),
+                         "node": draw(st.integers(0, 8)), "val": draw(st.sampled_from(T.SCALARS)), "kind": draw(st.integers(0, 2))})
     return {"kind": "tree", "tree": ts, "prog": prog}
 
 
